@@ -41,7 +41,14 @@ TStable == /\ Ev("SetStable") /\ SetStable(E.a[1])
            /\ ToSet(E.dropped) = Live \ (Desc(E.a[1]) \cup AncSelf(E.a[1]))
            /\ M
 TRestart == Ev("Restart") /\ Restart /\ M
-TraceNext == TReset \/ TAdd \/ TPut \/ TGet \/ TStable \/ TRestart
+\* account.Manager.Save(hash(b)): the whole write set of b at once (Put for every address of S)
+PutAll(b, S) == /\ b \in Live /\ S \subseteq Addrs /\ \A a \in S : <<b, a>> \notin wr
+                /\ LeafOnly => IsLeaf(b)
+                /\ wr' = wr \cup {<<b, a>> : a \in S}
+                /\ view' = [view EXCEPT ![b] = [a \in Addrs |-> IF a \in S THEN Val(b, a) ELSE @[a]]]
+                /\ UNCHANGED <<parent, n, stable, chain, sv, nstab, nrest, nreads>>
+TSave == Ev("Save") /\ PutAll(E.a[1], ToSet(E.a[2])) /\ M
+TraceNext == TReset \/ TAdd \/ TPut \/ TGet \/ TStable \/ TRestart \/ TSave
 TraceSpec == /\ l = 1 /\ parent = <<>> /\ n = 0 /\ stable = 0 /\ chain = {0} /\ wr = {} /\ sv = <<>> /\ view = <<>>
              /\ nstab = 0 /\ nrest = 0 /\ nreads = 0
              /\ [][TraceNext]_tvars
